@@ -45,7 +45,7 @@ def run_proc(job, shared=None):
                 return s
             log.append([j, kind, arg, int((time.time() - t00) * 1000)])
 
-    return run_body(job, plan, cap, emit, time.sleep, JobStatus.CANCELLING)
+    return run_body(job, plan, cap, emit, time.sleep, (JobStatus.CANCELLING, JobStatus.CANCELLED))
 
 
 def main():
